@@ -2059,3 +2059,12 @@ def _robust(n):
 
 
 for _n in NATIVE.values(): _robust(_n)
+
+
+# ---- listed known finding (C27): HCDivisorCL.encode with extended coordinates returns (u, v) off the curve.  Delimited exactly: the encoded
+#      element M itself fails "u divides f - v^2"; a failing decode, a raise or a failing group law on valid elements has a different key
+def _cls_hc_encoded(args, res, exc, msg):
+    return 'encoded-element-off-curve' if (exc is None and msg.startswith(f'encode({args[1]}): M = ') and 'u does not divide f - v^2' in msg) else None
+
+
+NATIVE['hc_encoded_extended'].classify = _cls_hc_encoded
